@@ -158,15 +158,15 @@ Fixpoint caps_sorted (lo : Z) (caps : list wcue) : Prop :=
   end.
 
 Lemma write_lang_primary_sorted : forall cls caps last b,
-  sorted b -> all_le b last -> caps_sorted last caps -> sorted (write_lang true cls caps last b).
+  sorted b -> all_le b (last_or0 last) -> caps_sorted (last_or0 last) caps -> sorted (write_lang true cls caps last b).
 Proof.
   induction caps as [|c t IH]; intros last b S U C; cbn [write_lang]; [exact S|].
   destruct C as (C1 & C2 & C3).
   set (time := wc_start c / 1000) in *.
-  set (b1 := if negb (last =? 0) && negb (time =? last) then place true last (cls, nbsp_text) b else b).
+  set (b1 := if blank_due last time then place true (last_or0 last) (cls, nbsp_text) b else b).
   assert (B1 : sorted b1 /\ all_le b1 time).
-  { unfold b1. destruct (negb (last =? 0) && negb (time =? last)).
-    - destruct (place_primary_sorted last (cls, nbsp_text) b S U) as [A B]. split; [exact A|eapply all_le_mono; eauto].
+  { unfold b1. destruct (blank_due last time).
+    - destruct (place_primary_sorted (last_or0 last) (cls, nbsp_text) b S U) as [A B]. split; [exact A|eapply all_le_mono; eauto].
     - split; [exact S|eapply all_le_mono; eauto]. }
   destruct B1 as [S1 U1].
   destruct (place_primary_sorted time (cls, wc_text c) b1 S1 U1) as [S2 U2].
@@ -177,7 +177,7 @@ Lemma write_lang_secondary_sorted : forall cls caps last b, sorted b -> sorted (
 Proof.
   induction caps as [|c t IH]; intros last b S; cbn [write_lang]; [exact S|].
   apply IH. apply place_secondary_sorted.
-  destruct (negb (last =? 0) && negb (wc_start c / 1000 =? last)); [apply place_secondary_sorted; exact S|exact S].
+  destruct (blank_due last (wc_start c / 1000)); [apply place_secondary_sorted; exact S|exact S].
 Qed.
 
 Lemma write_langs_secondary_sorted : forall cs b, sorted b -> sorted (write_langs false cs b).
@@ -357,17 +357,17 @@ Proof. intros cls b u u' U L y Hy Hn. specialize (U y Hy Hn). lia. Qed.
 
 (* the paragraphs the writer produces for one language, in order: a blank at the previous end when the next
    cue does not start there, then the cue *)
-Fixpoint lang_pars (caps : list wcue) (last : Z) : list (Z * str) :=
+Fixpoint lang_pars (caps : list wcue) (last : option Z) : list (Z * str) :=
   match caps with
   | [] => []
   | c :: t =>
       let time := wc_start c / 1000 in
-      (if negb (last =? 0) && negb (time =? last) then [(last, nbsp_text)] else [])
-      ++ (time, wc_text c) :: lang_pars t (wc_end c / 1000)
+      (if blank_due last time then [(last_or0 last, nbsp_text)] else [])
+      ++ (time, wc_text c) :: lang_pars t (Some (wc_end c / 1000))
   end.
 
 Lemma write_lang_secondary_pars : forall cls caps last b,
-  ssorted b -> upper cls b last -> caps_sorted last caps ->
+  ssorted b -> upper cls b (last_or0 last) -> caps_sorted (last_or0 last) caps ->
   cpars cls (write_lang false cls caps last b) = cpars cls b ++ lang_pars caps last
   /\ ssorted (write_lang false cls caps last b)
   /\ (forall cls', str_eqb cls cls' = false -> cpars cls' (write_lang false cls caps last b) = cpars cls' b).
@@ -375,22 +375,22 @@ Proof.
   induction caps as [|c t IH]; intros last b S U C; cbn [write_lang lang_pars].
   - rewrite app_nil_r. repeat split; auto.
   - destruct C as (C1 & C2 & C3). set (time := wc_start c / 1000) in *.
-    set (blank := negb (last =? 0) && negb (time =? last)).
-    set (b1 := if blank then place false last (cls, nbsp_text) b else b).
-    assert (B1 : cpars cls b1 = cpars cls b ++ (if blank then [(last, nbsp_text)] else [])
+    set (blank := blank_due last time).
+    set (b1 := if blank then place false (last_or0 last) (cls, nbsp_text) b else b).
+    assert (B1 : cpars cls b1 = cpars cls b ++ (if blank then [(last_or0 last, nbsp_text)] else [])
                  /\ ssorted b1 /\ upper cls b1 time
                  /\ (forall cls', str_eqb cls cls' = false -> cpars cls' b1 = cpars cls' b)).
     { unfold b1. destruct blank.
-      - destruct (place_secondary_appends cls last nbsp_text b S U) as [A1 A2].
+      - destruct (place_secondary_appends cls (last_or0 last) nbsp_text b S U) as [A1 A2].
         split; [exact A1|]. split; [exact A2|]. split.
-        + apply (placed_upper cls last (cls, nbsp_text) b); [apply place_placed|eapply upper_mono; eauto|exact C1].
-        + intros cls' N. apply (placed_other_class cls' cls last nbsp_text b); [apply place_placed|exact N].
+        + apply (placed_upper cls (last_or0 last) (cls, nbsp_text) b); [apply place_placed|eapply upper_mono; eauto|exact C1].
+        + intros cls' N. apply (placed_other_class cls' cls (last_or0 last) nbsp_text b); [apply place_placed|exact N].
       - rewrite app_nil_r. repeat split; auto. eapply upper_mono; eauto. }
     destruct B1 as (P1 & S1 & U1 & O1).
     destruct (place_secondary_appends cls time (wc_text c) b1 S1 U1) as [P2 S2].
     assert (U2 : upper cls (place false time (cls, wc_text c) b1) (wc_end c / 1000)).
     { apply (placed_upper cls time (cls, wc_text c) b1); [apply place_placed|eapply upper_mono; eauto|exact C2]. }
-    destruct (IH (wc_end c / 1000) _ S2 U2 C3) as (P3 & S3 & O3).
+    destruct (IH (Some (wc_end c / 1000)) _ S2 U2 C3) as (P3 & S3 & O3).
     split; [|split; [exact S3|]].
     + rewrite P3, P2, P1, <- !app_assoc. reflexivity.
     + intros cls' N. rewrite (O3 cls' N).
@@ -417,28 +417,28 @@ Proof.
 Qed.
 
 Lemma write_lang_primary_pars : forall cls caps last b,
-  ssorted b -> all_lt b last -> 0 <= last -> caps_strict last caps ->
+  ssorted b -> all_lt b (last_or0 last) -> 0 <= last_or0 last -> caps_strict (last_or0 last) caps ->
   cpars cls (write_lang true cls caps last b) = cpars cls b ++ lang_pars caps last
   /\ ssorted (write_lang true cls caps last b).
 Proof.
   induction caps as [|c t IH]; intros last b S L Z0 C; cbn [write_lang lang_pars].
   - rewrite app_nil_r. split; auto.
   - destruct C as (C1 & C2 & C3). set (time := wc_start c / 1000) in *.
-    set (blank := negb (last =? 0) && negb (time =? last)).
-    set (b1 := if blank then place true last (cls, nbsp_text) b else b).
-    assert (B1 : cpars cls b1 = cpars cls b ++ (if blank then [(last, nbsp_text)] else [])
+    set (blank := blank_due last time).
+    set (b1 := if blank then place true (last_or0 last) (cls, nbsp_text) b else b).
+    assert (B1 : cpars cls b1 = cpars cls b ++ (if blank then [(last_or0 last, nbsp_text)] else [])
                  /\ ssorted b1 /\ all_lt b1 time).
     { unfold b1. destruct blank eqn:Bk.
-      - destruct (place_primary_pars cls last nbsp_text b S L) as (A1 & A2 & A3).
+      - destruct (place_primary_pars cls (last_or0 last) nbsp_text b S L) as (A1 & A2 & A3).
         split; [exact A1|]. split; [exact A2|]. intros y Hy. specialize (A3 y Hy).
-        unfold blank in Bk. apply andb_prop in Bk. lia.
+        unfold blank, blank_due in Bk. destruct last as [l|]; [|discriminate]. cbn [last_or0] in *. lia.
       - rewrite app_nil_r. split; [reflexivity|]. split; [exact S|]. intros y Hy. specialize (L y Hy).
-        unfold blank in Bk. lia. }
+        unfold blank, blank_due in Bk. destruct last as [l|]; cbn [last_or0] in *; lia. }
     destruct B1 as (P1 & S1 & L1).
     destruct (place_primary_pars cls time (wc_text c) b1 S1 L1) as (P2 & S2 & U2).
-    destruct (IH (wc_end c / 1000) (place true time (cls, wc_text c) b1) S2) as (P3 & S3).
-    { intros y Hy. specialize (U2 y Hy). lia. }
-    { lia. }
+    destruct (IH (Some (wc_end c / 1000)) (place true time (cls, wc_text c) b1) S2) as (P3 & S3).
+    { intros y Hy. specialize (U2 y Hy). cbn [last_or0]. lia. }
+    { cbn [last_or0]. lia. }
     { exact C3. }
     split; [|exact S3]. rewrite P3, P2, P1, <- !app_assoc. reflexivity.
 Qed.
@@ -449,9 +449,9 @@ Proof.
   induction caps as [|c t IH]; intros last b N; cbn [write_lang]; [reflexivity|].
   rewrite IH by exact N.
   destruct (placed_other_class cls' cls _ (wc_text c) _ _ (place_placed true (wc_start c / 1000) (cls, wc_text c)
-             (if negb (last =? 0) && negb (wc_start c / 1000 =? last) then place true last (cls, nbsp_text) b else b)) N) as [Q _].
-  rewrite Q. destruct (negb (last =? 0) && negb (wc_start c / 1000 =? last)); [|reflexivity].
-  destruct (placed_other_class cls' cls _ nbsp_text _ _ (place_placed true last (cls, nbsp_text) b) N) as [Q2 _]. exact Q2.
+             (if blank_due last (wc_start c / 1000) then place true (last_or0 last) (cls, nbsp_text) b else b)) N) as [Q _].
+  rewrite Q. destruct (blank_due last (wc_start c / 1000)); [|reflexivity].
+  destruct (placed_other_class cls' cls _ nbsp_text _ _ (place_placed true (last_or0 last) (cls, nbsp_text) b) N) as [Q2 _]. exact Q2.
 Qed.
 
 Lemma cpars_nil_each : forall cls b, cpars cls b = [] -> forall y, In y b -> cpars cls [y] = [].
@@ -465,7 +465,7 @@ Lemma write_langs_secondary_pars : forall cs b,
   ssorted b -> NoDup (map fst cs) ->
   (forall l caps, In (l, caps) cs -> caps_sorted 0 caps /\ cpars l b = []) ->
   ssorted (write_langs false cs b)
-  /\ (forall l caps, In (l, caps) cs -> cpars l (write_langs false cs b) = lang_pars caps 0)
+  /\ (forall l caps, In (l, caps) cs -> cpars l (write_langs false cs b) = lang_pars caps None)
   /\ (forall cls, ~ In cls (map fst cs) -> cpars cls (write_langs false cs b) = cpars cls b).
 Proof.
   induction cs as [|[l caps] t IH]; intros b S N H; cbn [write_langs].
@@ -474,14 +474,14 @@ Proof.
     destruct (H l caps (or_introl eq_refl)) as [C E].
     assert (U : upper l b 0).
     { intros y Hy Hn. exfalso. apply Hn. apply (cpars_nil_each l b E y Hy). }
-    destruct (write_lang_secondary_pars l caps 0 b S U C) as (P1 & S1 & O1).
+    destruct (write_lang_secondary_pars l caps None b S U C) as (P1 & S1 & O1).
     assert (Neq : forall l', In l' (map fst t) -> str_eqb l l' = false).
     { intros l' Hl. destruct (str_eqb l l') eqn:Q; [|reflexivity].
       assert (l = l').
       { clear - Q. revert l' Q. induction l as [|x l IHl]; intros [|y l'] Q; simpl in Q; try discriminate; [reflexivity|].
         apply andb_prop in Q. destruct Q as [Q1 Q2]. f_equal; [lia|apply IHl; exact Q2]. }
       subst. contradiction. }
-    destruct (IH (write_lang false l caps 0 b) S1 N2) as (S2 & P2 & O2).
+    destruct (IH (write_lang false l caps None b) S1 N2) as (S2 & P2 & O2).
     { intros l' caps' Hin. destruct (H l' caps' (or_intror Hin)) as [C' E']. split; [exact C'|].
       rewrite O1; [exact E'|]. apply Neq. apply in_map_iff. exists (l', caps'). split; [reflexivity|exact Hin]. }
     split; [exact S2|]. split.
@@ -500,17 +500,17 @@ Theorem sami_language_order_partial : forall l0 caps0 rest,
   NoDup (map fst ((l0, caps0) :: rest)) -> caps_strict 0 caps0 ->
   (forall l caps, In (l, caps) rest -> caps_sorted 0 caps) ->
   forall l caps, In (l, caps) ((l0, caps0) :: rest) ->
-    cpars l (sami_write ((l0, caps0) :: rest)) = lang_pars caps 0.
+    cpars l (sami_write ((l0, caps0) :: rest)) = lang_pars caps None.
 Proof.
   intros l0 caps0 rest N C0 Cr l caps Hin. unfold sami_write. cbn [write_langs].
   inversion N as [|? ? N1 N2]; subst.
-  destruct (write_lang_primary_pars l0 caps0 0 [] I (fun y (H : In y []) => match H with end) (Z.le_refl 0) C0) as (P0 & S0).
+  destruct (write_lang_primary_pars l0 caps0 None [] I (fun y (H : In y []) => match H with end) (Z.le_refl 0) C0) as (P0 & S0).
   assert (Neq : forall l', In l' (map fst rest) -> str_eqb l0 l' = false).
   { intros l' Hl. destruct (str_eqb l0 l') eqn:Q; [|reflexivity]. exfalso. apply N1.
     assert (l0 = l'); [|subst; exact Hl].
     clear - Q. revert l' Q. induction l0 as [|x l IHl]; intros [|y l'] Q; simpl in Q; try discriminate; [reflexivity|].
     apply andb_prop in Q. destruct Q as [Q1 Q2]. f_equal; [lia|apply IHl; exact Q2]. }
-  destruct (write_langs_secondary_pars rest (write_lang true l0 caps0 0 []) S0 N2) as (S1 & P1 & O1).
+  destruct (write_langs_secondary_pars rest (write_lang true l0 caps0 None []) S0 N2) as (S1 & P1 & O1).
   { intros l' caps' H'. split; [apply (Cr l' caps' H')|].
     rewrite write_lang_primary_other; [reflexivity|]. apply Neq. apply in_map_iff. exists (l', caps'). split; [reflexivity|exact H']. }
   destruct Hin as [Hin|Hin].
@@ -613,7 +613,7 @@ Proof.
 Qed.
 
 Lemma write_lang_secondary_general : forall cls0 cls caps last b, str_eqb cls0 cls = false ->
-  sorted b -> J cls0 b -> upper cls b last -> caps_sorted last caps ->
+  sorted b -> J cls0 b -> upper cls b (last_or0 last) -> caps_sorted (last_or0 last) caps ->
   cpars cls (write_lang false cls caps last b) = cpars cls b ++ lang_pars caps last
   /\ sorted (write_lang false cls caps last b) /\ J cls0 (write_lang false cls caps last b)
   /\ (forall cls', str_eqb cls cls' = false -> cpars cls' (write_lang false cls caps last b) = cpars cls' b).
@@ -621,23 +621,23 @@ Proof.
   induction caps as [|c t IH]; intros last b N S Jb U C; cbn [write_lang lang_pars].
   - rewrite app_nil_r. repeat split; auto.
   - destruct C as (C1 & C2 & C3). set (time := wc_start c / 1000) in *.
-    set (blank := negb (last =? 0) && negb (time =? last)).
-    set (b1 := if blank then place false last (cls, nbsp_text) b else b).
-    assert (B1 : cpars cls b1 = cpars cls b ++ (if blank then [(last, nbsp_text)] else [])
+    set (blank := blank_due last time).
+    set (b1 := if blank then place false (last_or0 last) (cls, nbsp_text) b else b).
+    assert (B1 : cpars cls b1 = cpars cls b ++ (if blank then [(last_or0 last, nbsp_text)] else [])
                  /\ sorted b1 /\ J cls0 b1 /\ upper cls b1 time
                  /\ (forall cls', str_eqb cls cls' = false -> cpars cls' b1 = cpars cls' b)).
     { unfold b1. destruct blank.
-      - destruct (place_secondary_general cls0 cls last nbsp_text b N S Jb U) as [A1 A2].
+      - destruct (place_secondary_general cls0 cls (last_or0 last) nbsp_text b N S Jb U) as [A1 A2].
         split; [exact A1|]. split; [apply place_secondary_sorted; exact S|]. split; [exact A2|]. split.
-        + apply (placed_upper cls last (cls, nbsp_text) b); [apply place_placed|eapply upper_mono; eauto|exact C1].
-        + intros cls' N'. apply (placed_other_class cls' cls last nbsp_text b); [apply place_placed|exact N'].
+        + apply (placed_upper cls (last_or0 last) (cls, nbsp_text) b); [apply place_placed|eapply upper_mono; eauto|exact C1].
+        + intros cls' N'. apply (placed_other_class cls' cls (last_or0 last) nbsp_text b); [apply place_placed|exact N'].
       - rewrite app_nil_r. repeat split; auto. eapply upper_mono; eauto. }
     destruct B1 as (P1 & S1 & J1 & U1 & O1).
     destruct (place_secondary_general cls0 cls time (wc_text c) b1 N S1 J1 U1) as [P2 J2].
     pose proof (place_secondary_sorted time (cls, wc_text c) b1 S1) as S2.
     assert (U2 : upper cls (place false time (cls, wc_text c) b1) (wc_end c / 1000)).
     { apply (placed_upper cls time (cls, wc_text c) b1); [apply place_placed|eapply upper_mono; eauto|exact C2]. }
-    destruct (IH (wc_end c / 1000) _ N S2 J2 U2 C3) as (P3 & S3 & J3 & O3).
+    destruct (IH (Some (wc_end c / 1000)) _ N S2 J2 U2 C3) as (P3 & S3 & J3 & O3).
     split; [|split; [exact S3|split; [exact J3|]]].
     + rewrite P3, P2, P1, <- !app_assoc. reflexivity.
     + intros cls' N'. rewrite (O3 cls' N').
@@ -652,9 +652,9 @@ Lemma write_lang_primary_general : forall cls caps last b, (forall y, In y b -> 
 Proof.
   induction caps as [|c t IH]; intros last b A; cbn [write_lang lang_pars].
   - rewrite app_nil_r. split; auto.
-  - set (time := wc_start c / 1000). set (blank := negb (last =? 0) && negb (time =? last)).
-    set (b1 := if blank then place true last (cls, nbsp_text) b else b).
-    assert (B1 : cpars cls b1 = cpars cls b ++ (if blank then [(last, nbsp_text)] else [])
+  - set (time := wc_start c / 1000). set (blank := blank_due last time).
+    set (b1 := if blank then place true (last_or0 last) (cls, nbsp_text) b else b).
+    assert (B1 : cpars cls b1 = cpars cls b ++ (if blank then [(last_or0 last, nbsp_text)] else [])
                  /\ (forall y, In y b1 -> all_class cls y)).
     { unfold b1. destruct blank.
       - unfold place. rewrite cpars_app, cpars_new_block. split; [reflexivity|].
@@ -662,7 +662,7 @@ Proof.
         intros p [<-|[]]. reflexivity.
       - rewrite app_nil_r. split; [reflexivity|exact A]. }
     destruct B1 as (P1 & A1).
-    destruct (IH (wc_end c / 1000) (place true time (cls, wc_text c) b1)) as (P3 & A3).
+    destruct (IH (Some (wc_end c / 1000)) (place true time (cls, wc_text c) b1)) as (P3 & A3).
     { unfold place. intros y Hy. apply in_app_iff in Hy. destruct Hy as [Hy|[<-|[]]]; [apply A1; exact Hy|].
       intros p [<-|[]]. reflexivity. }
     split; [|exact A3]. rewrite P3. unfold place at 1. rewrite cpars_app, cpars_new_block, P1, <- !app_assoc. reflexivity.
@@ -678,7 +678,7 @@ Qed.
 Lemma write_langs_secondary_general : forall cls0 cs b,
   sorted b -> J cls0 b -> NoDup (map fst cs) -> ~ In cls0 (map fst cs) ->
   (forall l caps, In (l, caps) cs -> caps_sorted 0 caps /\ cpars l b = []) ->
-  (forall l caps, In (l, caps) cs -> cpars l (write_langs false cs b) = lang_pars caps 0)
+  (forall l caps, In (l, caps) cs -> cpars l (write_langs false cs b) = lang_pars caps None)
   /\ (forall cls, ~ In cls (map fst cs) -> cpars cls (write_langs false cs b) = cpars cls b).
 Proof.
   induction cs as [|[l caps] t IH]; intros b S Jb N N0 H; cbn [write_langs].
@@ -689,10 +689,10 @@ Proof.
     { intros y Hy Hn. exfalso. apply Hn. apply (cpars_nil_each l b E y Hy). }
     assert (Nl : str_eqb cls0 l = false).
     { destruct (str_eqb cls0 l) eqn:Q; [|reflexivity]. apply str_eqb_true_eq in Q. subst. exfalso. apply N0. left. reflexivity. }
-    destruct (write_lang_secondary_general cls0 l caps 0 b Nl S Jb U C) as (P1 & S1 & J1 & O1).
+    destruct (write_lang_secondary_general cls0 l caps None b Nl S Jb U C) as (P1 & S1 & J1 & O1).
     assert (Neq : forall l', In l' (map fst t) -> str_eqb l l' = false).
     { intros l' Hl. destruct (str_eqb l l') eqn:Q; [|reflexivity]. apply str_eqb_true_eq in Q. subst. contradiction. }
-    destruct (IH (write_lang false l caps 0 b) S1 J1 N2) as (P2 & O2).
+    destruct (IH (write_lang false l caps None b) S1 J1 N2) as (P2 & O2).
     { intros C0. apply N0. right. exact C0. }
     { intros l' caps' Hin. destruct (H l' caps' (or_intror Hin)) as [C' E']. split; [exact C'|].
       rewrite O1; [exact E'|]. apply Neq. apply in_map_iff. exists (l', caps'). split; [reflexivity|exact Hin]. }
@@ -709,14 +709,14 @@ Qed.
    the writer's sequence for its cue list, in order *)
 Theorem sami_language_order : forall cs, NoDup (map fst cs) ->
   (forall l caps, In (l, caps) cs -> caps_sorted 0 caps) ->
-  forall l caps, In (l, caps) cs -> cpars l (sami_write cs) = lang_pars caps 0.
+  forall l caps, In (l, caps) cs -> cpars l (sami_write cs) = lang_pars caps None.
 Proof.
   intros [|[l0 caps0] rest] N C l caps Hin; [destruct Hin|]. unfold sami_write. cbn [write_langs].
   inversion N as [|? ? N1 N2]; subst.
-  destruct (write_lang_primary_general l0 caps0 0 [] (fun y (H : In y []) => match H with end)) as (P0 & A0).
-  assert (S0 : sorted (write_lang true l0 caps0 0 [])).
+  destruct (write_lang_primary_general l0 caps0 None [] (fun y (H : In y []) => match H with end)) as (P0 & A0).
+  assert (S0 : sorted (write_lang true l0 caps0 None [])).
   { apply write_lang_primary_sorted; [exact I|intros y []|apply (C l0 caps0); left; reflexivity]. }
-  destruct (write_langs_secondary_general l0 rest (write_lang true l0 caps0 0 []) S0 (all_class_J _ _ A0) N2 N1) as (P1 & O1).
+  destruct (write_langs_secondary_general l0 rest (write_lang true l0 caps0 None []) S0 (all_class_J _ _ A0) N2 N1) as (P1 & O1).
   { intros l' caps' H'. split; [apply (C l' caps'); right; exact H'|].
     apply cpars_none. intros y Hy. apply (all_class_no_cpars l0); [apply A0; exact Hy|].
     destruct (str_eqb l0 l') eqn:Q; [|reflexivity]. apply str_eqb_true_eq in Q. subst. exfalso. apply N1.
@@ -753,7 +753,7 @@ Proof.
   induction caps as [|c t IH]; intros last H; [reflexivity|]. cbn [lang_pars map].
   rewrite filter_app. cbn [filter]. unfold nonblank at 2. cbn [snd]. rewrite (H c (or_introl eq_refl)). cbn [negb].
   rewrite IH by (intros d Hd; apply H; right; exact Hd).
-  destruct (negb (last =? 0) && negb (wc_start c / 1000 =? last)); reflexivity.
+  destruct (blank_due last (wc_start c / 1000)); reflexivity.
 Qed.
 
 (* the model's body satisfies the list clause of the oracle ok_sami_body for every language *)
@@ -766,3 +766,74 @@ Proof.
   intros cs N C T l caps Hin. rewrite pars_of_cpars, (sami_language_order cs N C l caps Hin).
   apply lang_pars_nonblank. intros c Hc. apply (T l caps c Hin Hc).
 Qed.
+
+(* ---- ALL inputs (no sortedness at all): languages never mix ----------------------------------------------------
+   Whatever the cue times, every language's paragraphs in the body are - as a multiset, each with the start of the
+   block it sits in - exactly the writer's sequence for that language's cue list; a class that is not a language of
+   the set has no paragraph. *)
+From Coq Require Import Permutation.
+
+Lemma placed_perm : forall cls t x b b', placed t (cls, x) b b' ->
+  Permutation (cpars cls b') (cpars cls b ++ [(t, x)]).
+Proof.
+  intros cls t x b b' H. destruct H as [pre ps post E|pre post E]; subst b.
+  - change ((t, ps ++ [(cls, x)]) :: post) with ([(t, ps ++ [(cls, x)])] ++ post).
+    change ((t, ps) :: post) with ([(t, ps)] ++ post).
+    rewrite !cpars_app, cpars_block_snoc, <- !app_assoc.
+    apply Permutation_app_head. apply Permutation_app_head. apply Permutation_app_comm.
+  - change ((t, [(cls, x)]) :: post) with ([(t, [(cls, x)])] ++ post).
+    rewrite !cpars_app, cpars_new_block, <- app_assoc. apply Permutation_app_head. apply Permutation_app_comm.
+Qed.
+
+Lemma write_lang_perm : forall pr cls caps last b,
+  Permutation (cpars cls (write_lang pr cls caps last b)) (cpars cls b ++ lang_pars caps last)
+  /\ (forall cls', str_eqb cls cls' = false -> cpars cls' (write_lang pr cls caps last b) = cpars cls' b).
+Proof.
+  intros pr cls. induction caps as [|c t IH]; intros last b; cbn [write_lang lang_pars].
+  - rewrite app_nil_r. split; [apply Permutation_refl|reflexivity].
+  - set (time := wc_start c / 1000).
+    set (b1 := if blank_due last time then place pr (last_or0 last) (cls, nbsp_text) b else b).
+    assert (B1 : Permutation (cpars cls b1) (cpars cls b ++ (if blank_due last time then [(last_or0 last, nbsp_text)] else []))
+                 /\ (forall cls', str_eqb cls cls' = false -> cpars cls' b1 = cpars cls' b)).
+    { unfold b1. destruct (blank_due last time).
+      - split; [apply placed_perm; apply place_placed|].
+        intros cls' N. apply (placed_other_class cls' cls (last_or0 last) nbsp_text b); [apply place_placed|exact N].
+      - rewrite app_nil_r. split; [apply Permutation_refl|reflexivity]. }
+    destruct B1 as [P1 O1].
+    destruct (IH (Some (wc_end c / 1000)) (place pr time (cls, wc_text c) b1)) as [P3 O3].
+    split.
+    + eapply Permutation_trans; [exact P3|].
+      pose proof (placed_perm cls time (wc_text c) b1 _ (place_placed pr time (cls, wc_text c) b1)) as P2.
+      eapply Permutation_trans; [apply Permutation_app_tail; exact P2|].
+      eapply Permutation_trans; [apply Permutation_app_tail; apply Permutation_app_tail; exact P1|].
+      rewrite <- !app_assoc. apply Permutation_refl.
+    + intros cls' N. rewrite (O3 cls' N).
+      destruct (placed_other_class cls' cls time (wc_text c) b1 _ (place_placed pr _ _ _) N) as [Q _].
+      rewrite Q. apply O1. exact N.
+Qed.
+
+Lemma write_langs_perm : forall cs first b, NoDup (map fst cs) ->
+  (forall l caps, In (l, caps) cs ->
+     Permutation (cpars l (write_langs first cs b)) (cpars l b ++ lang_pars caps None))
+  /\ (forall cls, ~ In cls (map fst cs) -> cpars cls (write_langs first cs b) = cpars cls b).
+Proof.
+  induction cs as [|[l caps] t IH]; intros first b N; cbn [write_langs].
+  - split; [intros l caps []|auto].
+  - inversion N as [|? ? N1 N2]; subst.
+    destruct (write_lang_perm first l caps None b) as [P1 O1].
+    destruct (IH false (write_lang first l caps None b) N2) as [P2 O2].
+    assert (Neq : forall cls, l <> cls -> str_eqb l cls = false).
+    { intros cls D. destruct (str_eqb l cls) eqn:Q; [|reflexivity]. apply str_eqb_true_eq in Q. contradiction. }
+    split.
+    + intros l' caps' [Hin|Hin].
+      * inversion Hin; subst. rewrite (O2 l' N1). exact P1.
+      * eapply Permutation_trans; [apply P2; exact Hin|]. rewrite O1; [apply Permutation_refl|].
+        apply Neq. intros D. subst. apply N1. apply in_map_iff. exists (l', caps'). split; [reflexivity|exact Hin].
+    + intros cls Hc. rewrite O2 by (intros C'; apply Hc; right; exact C').
+      apply O1. apply Neq. intros D. subst. apply Hc. left. reflexivity.
+Qed.
+
+Theorem sami_languages_never_mix : forall cs, NoDup (map fst cs) ->
+  (forall l caps, In (l, caps) cs -> Permutation (cpars l (sami_write cs)) (lang_pars caps None))
+  /\ (forall cls, ~ In cls (map fst cs) -> cpars cls (sami_write cs) = []).
+Proof. intros cs N. unfold sami_write. apply (write_langs_perm cs true [] N). Qed.
